@@ -732,7 +732,7 @@ pub fn run(opts: &Opts) {
             let t: Vec<&str> = line.split_whitespace().collect();
             if t[0] == "case" {
                 let label = t[2..].join(" ");
-                skip = label.starts_with("filter") != filter;
+                skip = !label.starts_with(if filter { "filter" } else { "mmr" });
                 if skip {
                     continue;
                 }
